@@ -50,10 +50,12 @@ func famCallbacks(tw *traceWriter, r *rand.Rand, n int) {
 
 // C03: mostly successful Parses (few tests, present inputs): destination = documented coercion
 func famSuccess(tw *traceWriter, r *rand.Rand, n int) {
+	genNaN, nanPct = true, 35
+	defer func() { genNaN, nanPct = false, 12 }()
 	for i := 0; i < n; i++ {
 		g := genCfg{maxDepth: 3, noPT: true, easy: true}
 		sch := genStruct(r, g, 0)
-		c := &Case{ID: fmt.Sprintf("s%d", i), Mode: "parse", Fe: "map", Schema: sch, Pre: i % 2}
+		c := &Case{ID: fmt.Sprintf("s%d", i), Mode: "parse", Fe: "map", Schema: sch, Pre: i % 3}
 		c.Input = genParseInput(r, sch, "map")
 		if c.Input.T != "map" {
 			c.Input = mapIn()
@@ -235,3 +237,44 @@ func init() {
 	families["success"] = famSuccess
 	families["pairs"] = famPairs
 }
+
+// NaN is a present float that every built-in comparison rejects: every built-in float test, alone on a field
+// (beside an int field that succeeds), on NaN given natively and as the string "NaN", in both modes, at the
+// root of a struct, as a slice element and behind a pointer
+func famNaN(tw *traceWriter, r *rand.Rand, n int) {
+	i := 0
+	for _, kind := range builtinKinds["float"] {
+		for _, wrap := range []string{"field", "elem", "ptr"} {
+			for _, mode := range []string{"parse", "parse-str", "validate"} {
+				if n > 0 && i >= n {
+					return
+				}
+				f := prim("float", r.Intn(2) == 0, None, None, []Test{{Kind: kind, N: 1 + r.Intn(4), Code: builtinCode("float", kind)}}, nil)
+				var node *Node
+				in := val(nanV)
+				if mode == "parse-str" {
+					in = sval(nanV)
+				}
+				switch wrap {
+				case "field":
+					node = f
+				case "elem":
+					node = slice(f, false, None, nil, nil)
+					in = list(in, val(1))
+				case "ptr":
+					node = ptr(f, true)
+				}
+				sch := strct([]Kid{{Key: "a", Node: node}, {Key: "b", Node: prim("int", false, None, None, nil, nil)}}, nil, nil)
+				m := mode
+				if m == "parse-str" {
+					m = "parse"
+				}
+				c := &Case{ID: fmt.Sprintf("nan%d", i), Mode: m, Fe: "map", Schema: sch, Input: mapIn(Ent{Key: "a", Val: in}, Ent{Key: "b", Val: val(2)})}
+				tw.emitCase(c, "", true)
+				i++
+			}
+		}
+	}
+}
+
+func init() { families["nan"] = famNaN }
